@@ -539,6 +539,17 @@ def t_every_protocol(ctx, lo, hi):
             scenario_case(ctx, {'allowed': [(p, 'num')], 'default': None,
                                 'reply': reply, 'entry': 'connect',
                                 'username': 'u', 'token': tk})
+        # the chronological neighbours: 'latest allowed' is decided by the
+        # publication order (a protocol with several names, e.g. 754 =
+        # 1.16.4 / 1.16.5, has the position of its FIRST publication; the
+        # snapshots published between its names come after it)
+        i = sup.index(p)
+        for k, nb in enumerate(sup[i + 1:i + 4]):
+            scenario_case(ctx, {'allowed': [(nb, 'num'), (p, 'num')][::
+                                            1 if k % 2 else -1],
+                                'default': None, 'reply': reply,
+                                'entry': ['status', 'connect'][(i + k) % 2],
+                                'username': 'u', 'as_set': bool(i % 2)})
         # one allowed VERSION spelled more than once (two of its names, a
         # name and its number, the number twice; list or set): still a
         # single allowed version, so no status query
